@@ -2,6 +2,13 @@
 
 package transport
 
+import (
+	"crypto/tls"
+	"crypto/x509"
+
+	"github.com/fatedier/frp/verif"
+)
+
 // C16: the transporter's registry (message type -> lane -> channel) is shared
 // by the control reader and every goroutine waiting for a reply.
 //
@@ -9,3 +16,78 @@ package transport
 //verif:sweep-type transporterImpl props=C16 kinds=lock
 
 //verif:sweep (*~/pkg/transport.transporterImpl).Send props=C16 kinds=nopanic
+
+// ---------------------------------------------------------------- C05: TLS identity rules
+
+// File and key-material helpers (library wrappers; trusted, listed): a result
+// or an error.
+//
+//verif:contract ~/pkg/transport.newCertPool
+//verif:trusted
+//verif:modifies
+func verif_newCertPool(caPath string) {
+	pool, err := newCertPool(caPath)
+	verif.Ensures((err == nil) == (pool != nil), "pool_or_error")
+}
+
+//verif:contract ~/pkg/transport.newCustomTLSKeyPair
+//verif:trusted
+//verif:modifies
+func verif_newCustomTLSKeyPair(certfile, keyfile string) {
+	cert, err := newCustomTLSKeyPair(certfile, keyfile)
+	verif.Ensures((err == nil) == (cert != nil), "key_pair_or_error")
+}
+
+//verif:contract ~/pkg/transport.newRandomTLSKeyPair
+//verif:trusted
+//verif:modifies
+func verif_newRandomTLSKeyPair() {
+	cert := newRandomTLSKeyPair()
+	verif.Ensures(cert != nil, "generated_key_pair")
+}
+
+// NewServerTLSConfig: "when the server ... is given a trusted CA, a peer ...
+// without an acceptable certificate cannot get any protocol message
+// interpreted": with a CA path the configuration requires and verifies a client
+// certificate against that CA's pool; without one no client certificate is
+// asked for; the server always presents a certificate.
+//
+//verif:contract ~/pkg/transport.NewServerTLSConfig
+//verif:props C05
+func verif_NewServerTLSConfig(certPath, keyPath, caPath string) {
+	verif.ResetEvents()
+	cfg, err := NewServerTLSConfig(certPath, keyPath, caPath)
+	verif.Ensures((err == nil) == (cfg != nil), "configuration_or_error")
+	if err == nil {
+		verif.Ensures(len(cfg.Certificates) == 1, "server_presents_a_certificate")
+		if caPath != "" {
+			verif.Ensures(cfg.ClientAuth == tls.RequireAndVerifyClientCert && cfg.ClientCAs != nil, "trusted_ca_means_client_certificates_are_required_and_verified")
+			verif.Ensures(verif.CalledWith("transport.newCertPool", 0, caPath) && cfg.ClientCAs == verif.Ret[*x509.CertPool]("transport.newCertPool", 0), "against_the_configured_ca")
+		} else {
+			verif.Ensures(cfg.ClientAuth == tls.NoClientCert && cfg.ClientCAs == nil, "no_ca_no_client_certificate_demand")
+		}
+		if certPath != "" && keyPath != "" {
+			verif.Ensures(verif.CalledWith("transport.newCustomTLSKeyPair", 0, certPath) && verif.CalledWith("transport.newCustomTLSKeyPair", 1, keyPath), "configured_key_pair_is_loaded")
+		}
+	}
+}
+
+// NewClientTLSConfig: "a client given a trusted CA and server name refuses a
+// server that presents another identity": with a CA path certificate
+// verification is on, against that CA's pool and for the given server name;
+// only without a CA is verification skipped.
+//
+//verif:contract ~/pkg/transport.NewClientTLSConfig
+//verif:props C05
+func verif_NewClientTLSConfig(certPath, keyPath, caPath, serverName string) {
+	verif.ResetEvents()
+	cfg, err := NewClientTLSConfig(certPath, keyPath, caPath, serverName)
+	verif.Ensures((err == nil) == (cfg != nil), "configuration_or_error")
+	if err == nil {
+		verif.Ensures(cfg.ServerName == serverName, "server_name_as_configured")
+		verif.Ensures(cfg.InsecureSkipVerify == (caPath == ""), "verification_skipped_only_without_a_ca")
+		if caPath != "" {
+			verif.Ensures(verif.CalledWith("transport.newCertPool", 0, caPath) && cfg.RootCAs != nil && cfg.RootCAs == verif.Ret[*x509.CertPool]("transport.newCertPool", 0), "servers_verified_against_the_configured_ca")
+		}
+	}
+}
